@@ -201,13 +201,14 @@ def register(reg):
 
     # ---- chars_node_to_text ---------------------------------------------------------------------------------------------
     def setup_chars(it):
-        return {'self': mk_l2t(it, 'text'), 'node': mknode(it, 'LatexCharsNode', chars=sym_str(it, 'chars')),
+        return {'self': mk_l2t(it, 'text', fill=(it.ctx.choose(2, 'fill_text') == 1)), 'node': mknode(it, 'LatexCharsNode', chars=sym_str(it, 'chars')),
                 'textcol': sym_int(it, 'textcol', lo=0)}
     BLC = "self.strict_latex_spaces['between-latex-constructs']"
     c_ch = reg.add(Contract(
         L2T + '.chars_node_to_text', setup=setup_chars, result_type='str',
-        ensures=[('text-is-copied', 'implies(%s or not chars_all_space(node.chars), result == node.chars)' % BLC),
-                 ('whitespace-only-chars-dropped-unless-strict', 'implies(not %s and chars_all_space(node.chars), result == "")' % BLC)],
+        ensures=[('text-is-copied', 'implies(not self.fill_text and (%s or not chars_all_space(node.chars)), result == node.chars)' % BLC),
+                 ('whitespace-only-chars-dropped-unless-strict',
+                  'implies(not self.fill_text and not %s and chars_all_space(node.chars), result == "")' % BLC)],
         modifies=[]))
     units['chars_node_to_text'] = FunctionUnit(c_ch)
 
@@ -1112,6 +1113,38 @@ def register(reg):
                   "implies(self.fill_text, result == '\\n\\n' + indent + contents.replace('\\n', '\\n' + indent) + '\\n\\n')")],
         modifies=[])
     units['_fmt_indented_block'] = FunctionUnit(c_fib)
+
+    # ---- do_fill_text: total, given the library contracts of re / textwrap (A-LIB) ------------------------------------------------------------
+    prev_hook2 = reg.regex_hook
+
+    def regex_hook_fill(it, rv, name, args, kwargs):
+        if name == 'search' and rv.pattern in (r'^\s*', r'\s*$'):
+            # these patterns match every string (possibly the empty match): a match object whose group() is some string
+            g = it.fresh_str('ws')
+            return AbsVal(it.ctx.fresh_int('match'), 'match', methods={'group': lambda it2, sf, a, k: g},
+                          attrs={'truth': lambda it2, sf: True})
+        if name == 'split' and rv.pattern == r'\n{2,}':
+            # re.split returns a non-empty list of strings
+            n = 1 + it.ctx.choose(2, 'number of paragraphs - 1')
+            return PyList([it.fresh_str('paragraph%d' % j) for j in range(n)])
+        return prev_hook2(it, rv, name, args, kwargs) if prev_hook2 is not None else NotImplemented
+    reg.regex_hook = regex_hook_fill
+
+    @reg.lib('textwrap.fill')
+    def textwrap_fill(it, text, width=70, **kw):
+        it.ctx.prove('pre@textwrap.fill:width > 0', zint(width) > 0, 'pre@callsite', 'textwrap.fill raises ValueError for width <= 0')
+        it.ctx.assume(zint(width) > 0)
+        if not V.is_str(text):
+            it.raise_builtin('TypeError', 'wd:type[textwrap.fill of a non-string]')
+        return it.fresh_str('filled')
+
+    def setup_fill(it):
+        l2t = mk_l2t(it, 'text', fill=True)
+        return {'self': l2t, 'text': sym_str(it, 'text'), 'textcol': sym_int(it, 'textcol', lo=0)}
+    c_fill = reg.add(Contract(L2T + '.do_fill_text', setup=setup_fill, result_type='str',
+                      requires=[('a-positive-column-width', 'self.fill_text >= 1'), ('a-column', 'textcol >= 0')],
+                      ensures=[], modifies=[]))
+    units['do_fill_text'] = FunctionUnit(c_fill, inline={L2T + '.do_fill_text.fill_chunk'}, split_depth=3)
     for k in units:
         contracts.REPLAYERS[k] = replay
     c07 = dict(units)
@@ -1131,7 +1164,9 @@ def register(reg):
         "tolerant parse_content(LatexGeneralNodesParser()) returns a node list and raises nothing: the contract verified for "
         "C06 (parse_content unit) given the parser interface contract; argument lists built by the standard argument "
         "parsers always have one entry per declared argument (assumed; the argument parsers have no unit yet)",
-        "fill_text: do_fill_text (regular expressions, textwrap) has no unit; totality with fill_text set is only covered by the bounded native search",
+        "fill_text: do_fill_text is verified total for a positive column width given the library contracts of re.search / re.split / "
+        "textwrap.fill (A-LIB: the two whitespace patterns always match; split returns a non-empty list of strings; fill needs width > 0, "
+        "proved at the call sites); a non-positive fill_text is outside the documented option",
         "the legacy \\verb arguments parser (VerbatimArgsParser.parse_args) has no unit here"]
     contracts.EXTRA_ASSUMPTIONS['C12'] = A_L2T + [
         "what is a comment / a formula in the source is decided by the tokenizer and parsers (C11, C01/C10 contracts): this check "
